@@ -9,7 +9,7 @@ ID = "C04"
 TITLE = "Point lookup returns exactly the lowest-indexed intersecting cell"
 MC = {"quick": [("MC_Cells", "MC_C04.cfg", 8)], "thorough": [("MC_Cells", "MC_C04.cfg", 16)]}
 TRACE = ("Trace_Cells", "Trace_Cells.cfg")
-REQUIRED = ["Lookup", "SelectPoint", "holes", "hit", "miss", "tie", "vertex-tie", "beyond-one-leaf",
+REQUIRED = ["held-memory", "held-file", "held-dask", "held-emsopen", "Lookup", "SelectPoint", "holes", "hit", "miss", "tie", "vertex-tie", "beyond-one-leaf",
             "cf1d", "cf2d", "shoc_simple", "shoc_standard", "arakawa", "ugrid"]
 RULE = ("one case = one dataset with lattice geometry (holes, skewed and non-convex cells; meshes of 12-60 faces so the "
         "STRtree has several leaves) queried at lattice points chosen from the abstract geometry: every vertex (3-4 way "
